@@ -38,7 +38,7 @@ type propCfg struct {
 	Rule        string
 }
 
-var allPkgs = []string{"packetio", "deadline", "dpipe", "netctx", "connctx", "replaydetector", "test", "vnet", "udp"}
+var allPkgs = []string{"packetio", "deadline", "dpipe", "netctx", "connctx", "replaydetector", "test", "vnet", "udp", "zzverif/simnet"}
 
 var props = map[string]*propCfg{}
 
@@ -78,6 +78,18 @@ func init() {
 		Components: []string{"real: vnet.DelayFilter (Run is a worker; arrivals through the in-package injector, forwards observed by the stamping sink NIC adaptor) and vnet.Router with MinDelay/MaxJitter between two real vnet hosts", "adaptor: sim/adaptors/vnet (sink NIC + injector, no logic of the code under test)"},
 		Assumptions: append([]string{"'eventually forwarded' is evaluated after 10 simulated minutes without new arrivals (all configured delays are <= 50 ms)"}, stdAssume...),
 		Rule: "delay in {0,1ns,1us,0.2ms,1ms,20ms,50ms}; 1-3 producers with arrival patterns (bursts, spacing = delay +-1ns, half/double delay); both timer-channel modes; router variant with jitter. Non-trivial: >=2 workers and >=1 context switch; distinct = schedule hash"})
+	def("C15", &propCfg{Pkgs: []string{"vnet"},
+		Components: []string{"real: vnet.TokenBucketFilter (its run goroutine is a worker), runtime Set(TBFRate/TBFMaxBurst)", "adaptor: sim/adaptors/vnet (sink NIC stamping at the instant of hand-over + injector)"},
+		Assumptions: append([]string{"across a run-time change the larger of the values in force during the interval is used (sound over-approximation)", "a datagram counts as discarded only if a later arrival was forwarded; queue occupancy at its arrival is over-approximated from stamps"}, stdAssume...),
+		Rule: "rates 100k..8Mbit/s, bursts 100..20000 B, queue sizes 100..50000 B; 1-2 producers with idle gaps around multiples of 100 ms, bursts far above the rate, sizes 0..above the burst; optional reconfigurer; every pair of forwarded datagrams is checked against burst + rate*dt. Non-trivial: >=3 datagrams forwarded; distinct = schedule hash"})
+	def("C16", &propCfg{Pkgs: []string{"vnet"},
+		Components: []string{"real: vnet.LossFilter; its math/rand draws are served by the simulator's seeded stream (rand.Seed is a no-op)", "adaptor: sim/adaptors/vnet (sink NIC + injector)"},
+		Assumptions: append([]string{"distribution-level test: |dropped - N*c/100| <= 6 sigma (false-alarm probability per run < 2e-9) rather than a per-draw oracle that would mirror the implementation"}, stdAssume...),
+		Rule: "stream of N tagged datagrams (N = 2*10^5 quick / 2*10^6 thorough per run) for one chance value per run, chances 0..100 and -5, 101, 250. Non-trivial: 0 < chance < 100; distinct = (chance, random stream seed)"})
+	def("C10", &propCfg{
+		Components: []string{"real: packetio.Buffer, dpipe, udp listener connections (over the simnet UDP kernel stub), vnet.UDPConn (two hosts on one router), test.Bridge endpoint (with a ticker worker), deadline.Deadline", "stub: simnet in-memory UDP kernel under the udp package"},
+		Assumptions: append([]string{"'a read after the deadline passed must time out' is asserted only once the expiry has been observed (an earlier read timed out under the same setting) or the deadline was already past when set: a timer callback that has not run yet is a legitimate race", "liveness is evaluated at quiescence only"}, stdAssume...),
+		Rule: "per run one connection type; three workers: deadline setter (zero/past/near/far, SetReadDeadline or SetDeadline), reader (bounded reads with idle periods), writer (datagram arrivals), with sleeps equal to / around the deadline durations; both timer-channel modes. Non-trivial: >=2 workers and >=1 context switch; distinct = schedule hash"})
 	def("C09", &propCfg{
 		Components:  []string{"real: deadline.Deadline over simrt.Timer (AfterFunc callbacks are workers parked at their entry, so a dispatched-but-unrun callback can be overtaken by further Set calls)", "stub: none"},
 		Assumptions: stdAssume,
